@@ -103,10 +103,17 @@ def handleP18 (toks : List String) : String :=
       else if cmd == "run" then some .run else none
     match cmd?, parseText value, parseHex fuel, parseBytes inp, parseText src with
     | some cmd, some value, some fuel, some inp, some src =>
-      let fa : FlagArg := if style == "N" then .absent else .given value
-      let r := laceFlag cmd fa fuel fileName destName src inp
+      -- N absent; G before the subcommand; B before and after it; S L E J after it
+      let g : FlagArg := if style == "G" || style == "B" then .given value else .absent
+      let l : FlagArg := if style == "N" || style == "G" then .absent else .given value
+      let r := laceFlag cmd g l fuel fileName destName src inp
       let m := "M " ++ showFlagProc cmd r
-      match featuresOf fa with
+      if style == "G" then
+        -- written before the subcommand, the option means what it means after it
+        -- (`C18.flag_position_irrelevant`)
+        m ++ " ;; S " ++ showFlagProc cmd (laceFlag cmd .absent (.given value) fuel fileName destName src inp)
+      else
+      match featuresOf2 g l with
       | .ok false =>
         match hasStackToken src with
         | some true =>
@@ -115,13 +122,13 @@ def handleP18 (toks : List String) : String :=
                                else "Assembling".toList) ("target ".toList ++ fileName)
           m ++ " ;; S " ++ showFlagProc cmd (.finished { status := 1, out := out0, image := none, named := true })
         | some false =>
-          let ron := laceFlag cmd (.given Features.stackWord) fuel fileName destName src inp
+          let ron := laceFlag cmd .absent (.given Features.stackWord) fuel fileName destName src inp
           -- for `run`: only when the flag-off run never fetches opcode 0xD
           let noD : Bool :=
             match cmd, (assemble false [] src).1 with
             | .run, .ok img =>
               match Run.fromRaw (img.orig.getD 0x3000#16 :: img.words) with
-              | .ok m0 => (Run.fetchedWords false true fuel m0 { inp := inp, outRev := [] }).all
+              | .ok m0 => (Run.fetchedWords false true fuel m0 (runWorld fileName inp)).all
                             (fun x => !Run.isOpD x)
               | _ => true
             | _, _ => true
